@@ -1156,7 +1156,7 @@ func utlsIdToSpec(id ClientHelloID) (ClientHelloSpec, error) {
 			}}, nil
 	case HelloFirefox_102:
 		return ClientHelloSpec{
-			TLSVersMin: VersionTLS10,
+			TLSVersMin: VersionTLS12, // supported_versions below lists TLS 1.3 and 1.2 only
 			TLSVersMax: VersionTLS13,
 			CipherSuites: []uint16{
 				TLS_AES_128_GCM_SHA256,
